@@ -75,12 +75,13 @@ type Conn struct {
 	handler ConnHandler
 
 	// observable bookkeeping for oracles
-	TotalIn      int64 // bytes delivered to lal
-	TotalOut     int64 // bytes lal wrote (collected)
-	TotalQueued  int64 // bytes the actor queued
-	segRng       *Rng
-	SegMode      int // -1: use kernel default
-	lastDelivery int // step of the last delivery
+	TotalIn       int64 // bytes delivered to lal
+	TotalConsumed int64 // bytes lal's Read calls took
+	TotalOut      int64 // bytes lal wrote (collected)
+	TotalQueued   int64 // bytes the actor queued
+	segRng        *Rng
+	SegMode       int // -1: use kernel default
+	lastDelivery  int // step of the last delivery
 }
 
 func (k *Kernel) newConn(name string, local, remote Addr, h ConnHandler) *Conn {
@@ -150,12 +151,16 @@ func (c *Conn) ClosedByLal() bool {
 	return c.closedLocal
 }
 
-// Idle reports that everything queued was delivered and consumed and lal's reader is blocked waiting
+// Idle reports that everything delivered so far was consumed and lal's reader is blocked waiting
 // for more (so everything delivered so far has been fully processed by the reading goroutine).
 func (c *Conn) Idle() bool {
 	c.mu.Lock()
-	defer c.mu.Unlock()
-	return len(c.pending) == 0 && len(c.readable) == 0 && (c.readerWait > 0 || c.closedLocal)
+	idle := len(c.readable) == 0 && c.readerWait > 0 && !c.closedLocal
+	c.mu.Unlock()
+	if !idle {
+		return false
+	}
+	return !c.k.goroutineBusy("conn:" + c.name)
 }
 
 // WriterBlocked reports that a lal goroutine is blocked in Write on this connection.
@@ -188,7 +193,12 @@ func (c *Conn) deliver(k *Kernel) int {
 			n = 1 + c.segRng.Intn(minInt(n, 1500))
 		}
 	case 2:
-		n = 1 + c.segRng.Intn(minInt(n, 3))
+		// tiny segments for the first few KiB of a connection (handshake, commands, first media), then random
+		if c.TotalIn < 6000 {
+			n = 1 + c.segRng.Intn(minInt(n, 3))
+		} else if c.segRng.Intn(3) != 0 {
+			n = 1 + c.segRng.Intn(n)
+		}
 	}
 	c.readable = append(c.readable, c.pending[:n]...)
 	c.pending = c.pending[n:]
@@ -240,6 +250,7 @@ func (c *Conn) Read(b []byte) (int, error) {
 		}
 		if len(c.readable) > 0 {
 			n := copy(b, c.readable)
+			c.TotalConsumed += int64(n)
 			c.readable = c.readable[n:]
 			if len(c.readable) == 0 {
 				c.readable = nil
@@ -265,6 +276,10 @@ func (c *Conn) Read(b []byte) (int, error) {
 }
 
 func (c *Conn) Write(b []byte) (int, error) {
+	// Every write is a scheduling point: the writing goroutine parks until the driver lets this
+	// write happen, so that writer goroutines never run concurrently with each other or with the
+	// goroutine that fed them (keeps runs deterministic even if lal shares buffers between writers).
+	c.k.parkWrite(c)
 	c.mu.Lock()
 	defer c.mu.Unlock()
 	total := 0
